@@ -629,6 +629,48 @@ pub fn product<T: BFlavor>(prop: &'static str, mon: u32, tier: Tier) -> (Acc, Va
     (acc, rep)
 }
 
+/// Every Unicode scalar value inside each field (namespace, name, version, qualifier value, subpath),
+/// through the full C09 oracle: build, accessors, print, re-parse.
+pub fn scalar_fields<T: BFlavor>(prop: &'static str) -> (Acc, Value) {
+    let ty = T::type_universe().into_iter().next().unwrap();
+    let ty2 = if T::TYPED { "nuget".to_owned() } else { ty.clone() };
+    let acc = crate::sweeps::for_all_scalars(|c, acc| {
+        let text = format!("a{c}b");
+        for field in 0..5usize {
+            for (ti, t) in [&ty, &ty2].iter().enumerate() {
+                if field != 1 && ti == 1 {
+                    continue;
+                }
+                acc.evals += 1;
+                let mut refb = RefBuilder { ty: (*t).clone(), ns: "g".into(), name: "n".into(), ..Default::default() };
+                match field {
+                    0 => refb.ns = text.clone(),
+                    1 => refb.name = text.clone(),
+                    2 => refb.version = text.clone(),
+                    3 => {
+                        refb.quals.insert("k".into(), text.clone());
+                    },
+                    _ => refb.subpath = text.clone(),
+                }
+                let trace = || json!({"engine": format!("{}-product", T::MODEL), "ty": refb.ty, "ns": refb.ns, "name": refb.name, "version": refb.version, "subpath": refb.subpath, "quals": refb.quals.iter().map(|(k, v)| json!([k, v])).collect::<Vec<_>>()});
+                let r = guarded(|| {
+                    let mut b = GenericPurlBuilder::new(T::make(t), refb.name.as_str()).with_namespace(refb.ns.as_str()).with_version(refb.version.as_str()).with_subpath(refb.subpath.as_str());
+                    for (k, v) in &refb.quals {
+                        b = b.with_qualifier(k.as_str(), v.as_str()).expect("valid key");
+                    }
+                    check_build(prop, 0, &b, &refb, &trace, acc);
+                });
+                if let Err(m) = r {
+                    acc.violate(Violation { prop: "C06", kind: "panic".into(), case: trace(), detail: m });
+                }
+                acc.nontrivial += 1;
+            }
+        }
+    });
+    let rep = json!({"engine": "E-scalar-fields", "model": T::MODEL, "scalar_values": crate::sweeps::N_SCALARS, "fields": 5, "builds": acc.evals});
+    (acc, rep)
+}
+
 /// replay of a product case
 pub fn replay_product<T: BFlavor>(prop: &'static str, mon: u32, case: &Value) -> Option<Vec<Violation>> {
     let mut acc = Acc::new();
